@@ -56,6 +56,8 @@ def table_text(deps):
         args = []
         if d.get("j"):
             args.append("-j")
+        if d.get("external"):
+            args.append("--external")
         args.append(d["n"])
         if d.get("v"):
             args.append(d["v"])
